@@ -1,6 +1,7 @@
 package graphql
 
 import (
+	"github.com/graphql-go/graphql/verifhook"
 	"fmt"
 	"strings"
 
@@ -205,6 +206,7 @@ func (rule *overlappingFieldsCanBeMergedRule) findConflictsWithinSelectionSet(pa
 // Collect all conflicts found between a set of fields and a fragment reference
 // including via spreading in any nested fragments.
 func (rule *overlappingFieldsCanBeMergedRule) collectConflictsBetweenFieldsAndFragment(conflicts []conflict, areMutuallyExclusive bool, fieldsInfo *fieldsAndFragmentNames, fragmentName string) []conflict {
+	verifhook.Count(verifhook.OverlapFieldsAndFragment)
 	// Skip if this fields/fragment pair has already been compared.
 	if rule.comparedFieldsAndFragmentSet.Has(fieldsInfo, fragmentName, areMutuallyExclusive) {
 		return conflicts
@@ -240,6 +242,7 @@ func (rule *overlappingFieldsCanBeMergedRule) collectConflictsBetweenFieldsAndFr
 // Collect all conflicts found between two fragments, including via spreading in
 // any nested fragments.
 func (rule *overlappingFieldsCanBeMergedRule) collectConflictsBetweenFragments(conflicts []conflict, areMutuallyExclusive bool, fragmentName1 string, fragmentName2 string) []conflict {
+	verifhook.Count(verifhook.OverlapBetweenFragments)
 	fragment1 := rule.context.Fragment(fragmentName1)
 	fragment2 := rule.context.Fragment(fragmentName2)
 
@@ -379,6 +382,7 @@ func (rule *overlappingFieldsCanBeMergedRule) collectConflictsBetween(conflicts 
 
 // findConflict Determines if there is a conflict between two particular fields.
 func (rule *overlappingFieldsCanBeMergedRule) findConflict(parentFieldsAreMutuallyExclusive bool, responseName string, field *fieldDefPair, field2 *fieldDefPair) *conflict {
+	verifhook.Count(verifhook.OverlapFindConflict)
 
 	parentType1 := field.ParentType
 	ast1 := field.Field
@@ -472,6 +476,7 @@ func (rule *overlappingFieldsCanBeMergedRule) findConflict(parentFieldsAreMutual
 // name to field ASTs and definitions) as well as a list of fragment names
 // referenced via fragment spreads.
 func (rule *overlappingFieldsCanBeMergedRule) getFieldsAndFragmentNames(parentType Named, selectionSet *ast.SelectionSet) *fieldsAndFragmentNames {
+	verifhook.Count(verifhook.OverlapGetFieldsAndFragmentNames)
 	if cached, ok := rule.cacheMap[selectionSet]; ok && cached != nil {
 		return cached
 	}
